@@ -89,7 +89,8 @@ InitRec ==
    pcCloses |-> 0, pcDead |-> FALSE, wsClosed |-> FALSE,
    over |-> <<>>, nOver |-> 0, writtenAtOver |-> 0, retd |-> 0,
    outCh |-> <<>>, inCh |-> <<>>, outCnt |-> 0, inCnt |-> 0,
-   cSaw |-> FALSE, rSaw |-> FALSE]
+   cSaw |-> FALSE, rSaw |-> FALSE,
+   stalled |-> FALSE]                        \* the client has stopped reading (its transport stays up)
 
 Init == ss = [s \in Sessions |-> InitRec]
 
@@ -111,7 +112,7 @@ ProxyQuiet(s) ==
      /\ ((X(s).H = "wait" /\ ~X(s).done) \/ X(s).H = "done")
      /\ X(s).outCh = <<>> /\ X(s).inCh = <<>>
      /\ (X(s).wsUp = 0 \/ X(s).rst = "closed")
-     /\ X(s).dcDown = <<>>
+     /\ (X(s).dcDown = <<>> \/ X(s).stalled)
      /\ ~(X(s).wsClosed /\ X(s).rst = "open" /\ ~X(s).rSaw)
      /\ ~((X(s).pcDead \/ X(s).dcNil) /\ X(s).cst = "open" /\ ~X(s).cSaw)
 EnvOK == (~EnvAtQuiet) \/ \A s \in Sessions : ProxyQuiet(s)
@@ -126,7 +127,7 @@ ClientSend(s, m) ==
   /\ Set(s, [X(s) EXCEPT !.nUp = @ + 1, !.upSent = @ + m,      \* towards a proxy that has closed, it goes nowhere
                          !.dcUp = IF X(s).pcDead \/ X(s).cSaw THEN @ ELSE Append(@, m)])
 ClientRecv(s) ==               \* (a client that has closed its data channel may still be handed what was in flight)
-  /\ X(s).cst # "gone" /\ X(s).dcDown # <<>>
+  /\ X(s).cst # "gone" /\ X(s).dcDown # <<>> /\ ~X(s).stalled
   /\ Set(s, [X(s) EXCEPT !.downAtClient = @ + Head(X(s).dcDown), !.dcDown = Tail(@)])
 ClientCloseDc(s) ==            \* graceful: what was sent before arrives before the end
   /\ X(s).live /\ X(s).cst = "open" /\ EnvOK /\ MayEnd(s)
@@ -143,6 +144,17 @@ DcLoss(s) ==                   \* ... the loss itself: the tail of what was in f
 ClientVanish(s) ==             \* no signalling at all; the proxy only learns it through the relay
   /\ X(s).live /\ X(s).cst = "open" /\ EnvOK /\ MayEnd(s)
   /\ Set(s, [X(s) EXCEPT !.cst = "gone", !.dcDown = <<>>])      \* (what it had sent may still arrive, or be lost: DcLoss)
+(* Bulk download with a reader that does not keep up: the client stops taking messages; what the
+   relay goes on sending piles up on the way (in this code: without bound in the proxy's data channel
+   queue - conn.Write never waits; an implementation with back-pressure would stop reading the
+   WebSocket instead: D may lag as far as it likes here, so both are behaviours of this model).
+   Whatever is queued when the channel goes away is counted-but-undelivered: DownLoss / ClientAbort. *)
+ClientStallsReading(s) ==
+  /\ X(s).live /\ X(s).cst = "open" /\ ~X(s).stalled /\ EnvOK
+  /\ Set(s, [X(s) EXCEPT !.stalled = TRUE])
+ClientResumes(s) ==
+  /\ X(s).cst = "open" /\ X(s).stalled /\ EnvOK
+  /\ Set(s, [X(s) EXCEPT !.stalled = FALSE])
 ClientSeesClose(s) ==
   /\ X(s).cst = "open" /\ ~X(s).cSaw /\ (X(s).pcDead \/ X(s).dcNil)
   /\ Set(s, [X(s) EXCEPT !.cSaw = TRUE])
@@ -255,7 +267,7 @@ ProxyStep(s) ==
   \/ CopyToClient(s) \/ CopyToClientDropped(s) \/ CopyLoopEnds(s) \/ ConnClose(s) \/ PrClose(s) \/ WsClose(s) \/ HandlerReturns(s)
   \/ (\E k \in 1..X(s).wsDown : CopyDownRead(s, k))
 EnvStep(s) ==
-  \/ Start(s) \/ ClientRecv(s) \/ ClientCloseDc(s) \/ ClientAbort(s) \/ DcLoss(s) \/ DownLoss(s) \/ ClientVanish(s) \/ ClientSeesClose(s)
+  \/ Start(s) \/ ClientRecv(s) \/ ClientStallsReading(s) \/ ClientResumes(s) \/ ClientCloseDc(s) \/ ClientAbort(s) \/ DcLoss(s) \/ DownLoss(s) \/ ClientVanish(s) \/ ClientSeesClose(s)
   \/ RelayCloseWs(s) \/ RelaySeesClose(s)
   \/ (\E m \in Sizes : ClientSend(s, m) \/ RelaySend(s, m))
   \/ (\E k \in 1..X(s).wsUp : RelayRecv(s, k))
